@@ -101,20 +101,23 @@ Proof.
   destruct (flt coef _); now rewrite fsub_pzero_r.
 Qed.
 
-(* --- change_base between base sets that agree (with coefficient 1) wherever the dimension is non-zero --- *)
-Definition unit_bases2 (Ul Ur : list fl) (d : list Z) : Prop :=
-  forall p, In p (combine (combine Ul Ur) d) -> (fst (fst p) = fone /\ snd (fst p) = fone) \/ snd p = 0.
+(* --- change_base is the identity when, wherever the dimension is non-zero, both sides use the
+       same (non-NaN) base unit: the case of every same-base operation, in ANY base-unit set --- *)
+Definition agree_bases (Ul Ur : list fl) (d : list Z) : Prop :=
+  forall p, In p (combine (combine Ul Ur) d) ->
+    (fst (fst p) = snd (fst p) /\ is_nan (fst (fst p)) = false) \/ snd p = 0.
 
-Lemma change_base_id Ul Ur d v : unit_bases2 Ul Ur d -> change_base F Ul Ur d v = v.
+Lemma change_base_id Ul Ur d v : agree_bases Ul Ur d -> change_base F Ul Ur d v = v.
 Proof.
-  unfold change_base, unit_bases2. revert v.
+  unfold change_base, agree_bases. revert v.
   induction (combine (combine Ul Ur) d) as [|[[ul ur] e] l IH]; intros v H; [reflexivity|].
-  cbn [fold_left fst snd]. cbn [cmul cdiv cpowi CFfloat].
-  assert (Hp : fpowi prec emax Hprec Hmax lib ur e = fone /\ fpowi prec emax Hprec Hmax lib ul e = fone).
+  cbn [fold_left]. unfold change_base_step at 2. cbn [fst snd ceq cmul cdiv cpowi CFfloat].
+  assert (Hs : (if feq prec emax ur ul then v
+                else fdiv (fmul v (fpowi prec emax Hprec Hmax lib ur e)) (fpowi prec emax Hprec Hmax lib ul e)) = v).
   { destruct (H ((ul, ur), e) (or_introl eq_refl)) as [[H1 H2]|He]; cbn [fst snd] in *.
-    - subst ul ur. split; apply fpowi_one.
-    - subst e. split; apply fpowi_zero. }
-  destruct Hp as [-> ->]. rewrite fmul_1_r, fdiv_1_r. apply IH. intros p Hin. apply H. right. exact Hin.
+    - subst ur. now rewrite feq_refl.
+    - subst e. rewrite !fpowi_zero, fmul_1_r, fdiv_1_r. now destruct (feq prec emax ur ul). }
+  rewrite Hs. apply IH. intros p Hin. apply H. right. exact Hin.
 Qed.
 
 End C.
